@@ -25,7 +25,10 @@ META = {
                   "client; a one-shot server accepts at most one connection, does accept the first one queued, and is closed once that connection ends "
                   "(a first client that fails authentication is that one connection). Proof is the right level: the statement quantifies over "
                   "unbounded histories and interleavings.",
-    "level_note": "Partial for descriptors, threads and child processes: the model counts table entries; /proc/self/fd, the thread count and what each client's socket reads are "
+    "level_note": "Scope of the theorems: started servers (close() before start(): harness only); authenticators that do not replace the accepted socket "
+                  "(c17_close_ends_clients carries that hypothesis; TLS-like authenticators, a handshake that ends after close(): harness ops wrap / authlate only); "
+                  "pool tables identified with never-reused keys (descriptor-number reuse: harness op hookhold, fact pool_drop_checks_identity). "
+                  "Partial for descriptors, threads and child processes: the model counts table entries; /proc/self/fd, the thread count and what each client's socket reads are "
                   "observed only by the correspondence run (the forking server's parent: Server.clients, listener and descriptor count after close() are checked, "
                   "children are not). The correspondence is sequential (one event, then the server's threads settle): concurrent bursts are not produced; the share of events "
                   "actually compared with the model is reported (events_compared_with_model) and a floor of 75% is enforced; exceptions that end server threads are collected and "
@@ -34,7 +37,7 @@ META = {
     "technique": "Coq invariants over an event transition system + regenerated control skeletons and facts + differential correspondence of the extracted model with real servers "
                  "+ implementation-level oracle on sockets, descriptors and threads",
     "gen": ["server", "channel", "stream", "protocol", "libinit"],
-    "shapes": ["server.*", "channel.*", "stream.SocketStream.*", "stream.Stream.poll", "stream.compat.*", "stream.retry_errnos",
+    "shapes": ["server.*", "channel.*", "stream.SocketStream.*", "stream.Stream.poll", "stream.compat.*", "stream.lib.*", "stream.retry_errnos",
                "protocol.Connection.serve", "protocol.Connection.serve_all", "protocol.Connection.poll", "protocol.Connection._dispatch",
                "protocol.Connection._dispatch_request", "protocol.Connection._send", "protocol.Connection.close", "protocol.Connection._cleanup",
                "protocol.Connection.__init__", "protocol.Connection.sync_request", "protocol.Connection._netref_factory",
@@ -50,7 +53,9 @@ META = {
 
 KINDS = ["threaded", "pool", "oneshot", "forking"]
 FACT_NAMES = ("pool_close_drops", "pool_fail_discards", "fork_parent_keeps", "pool_catches_base", "worker_tracks_served",
-              "accept_survives_oserror", "accept_rechecks_closed")
+              "accept_survives_oserror", "accept_rechecks_closed",
+              # read off the source like the others, not parameters of the Coq model (they say when the harness may compare with it):
+              "pool_drop_checks_identity", "auth_rechecks_closed", "pool_serves_fd_zero", "accept_survives_spawn_failure")
 # Every wait whose expiry is a verdict (a reply, end-of-stream, a table emptying, close() returning ...) uses BOUND: generous, so
 # that a loaded machine cannot produce a false violation; it costs nothing when the expected thing happens.  FAST replaces it
 # only after a failure has already been established (in the same history, or earlier in the run).  Starvation verdicts do not
@@ -119,6 +124,29 @@ def model_case(cfg, facts, items):
         elif op == "kill":
             dtbl[b"KILL"] = [QKILL]
             script.append([0, [1, it[1], frame_raw(b"KILL", 0)]])
+        elif op == "nospawn":
+            script.append([0, [0, it[1], AUTH_OK]])
+            ckind[it[1]] = "raw"
+        elif op == "knock":
+            script.append([0, [0, it[1], AUTH_OK]])
+            ckind[it[1]] = "raw"
+            script.append([0, [2, it[1], 0 if unix else 1]])
+            hups.append(it[1])
+        elif op == "classref":
+            pass
+        elif op == "hookhold":
+            script.append([0, [2, it[1], 1 if (len(it) > 3 and it[3] == "rst" and not unix) else 0]])
+            if unix or (len(it) > 3 and it[3] == "rst"):
+                hups.append(it[1])
+            script.append([0, [0, it[2], AUTH_OK]])
+            ckind[it[2]] = "raw"
+        elif op == "connect0":
+            script.append([0, [0, it[1], AUTH_OK]])
+            ckind[it[1]] = "raw"
+        elif op == "authlate":
+            script.append([0, [0, it[1], AUTH_STALL]])
+            ckind[it[1]] = "raw"
+            script.append([0, [7]])
         elif op == "twin":
             script.append([0, [0, it[1], AUTH_OK]])
             script.append([0, [0, it[2], AUTH_OK]])
@@ -264,6 +292,8 @@ class Rec:
         self.peer_of = {}         # key -> peer address of the connection
         self.thread_errors = 0
         self.config_of = {}       # key -> (peer of the connection's socket, peer its configuration names, its credentials)
+        self.hook_hold = None     # (reached, go): the next on_disconnect announces itself and waits
+        self.fd_of = {}           # key -> descriptor number of the connection when it was set up
         self.ctor_hold = None     # (reached, go): the next service constructor announces itself and waits
         self.parked = 0           # exposed_park calls that are waiting
         self.release = threading.Event()
@@ -289,6 +319,10 @@ class Rec:
                 cred = conn._config.get("credentials")
             except Exception:
                 told, cred = None, None
+            try:
+                self.fd_of[key] = conn.fileno()
+            except Exception:
+                self.fd_of[key] = None
             self.peer_of[key] = real if real is not None else told
             self.config_of[key] = (real, told, cred)
 
@@ -296,6 +330,11 @@ class Rec:
         with self.lock:
             key = getattr(conn, "_verif_key", None)
             self.hooks[key] = self.hooks.get(key, 0) + 1
+            hold, self.hook_hold = self.hook_hold, None
+        if hold is not None:
+            # (the channel -- and with it the descriptor number -- has been released by _cleanup before the hook is called)
+            hold[0].set()
+            hold[1].wait(20 * BOUND)
 
 
 def make_service(rec):
@@ -369,6 +408,18 @@ def wrapping_authenticator(sock):
     import socket
     sock, cred = toy_authenticator(sock)
     return socket.socket(fileno=sock.detach()), cred
+
+
+def detach_first_authenticator(sock):
+    """what a TLS handshake does: the accepted socket object is given up AT ONCE, the credentials are read from its replacement"""
+    import socket
+    s2 = socket.socket(fileno=sock.detach())
+    try:
+        s2, cred = toy_authenticator(s2)
+    except BaseException:
+        s2.close()
+        raise
+    return s2, cred
 
 
 THREAD_ERRORS = []       # (thread name, exception class) of every thread that ended with an exception in this helper process
@@ -511,7 +562,9 @@ class History:
             ok = cur == last[0] and cur[1] == 1
             last[0] = cur
             return ok
-        wait_until(stable, 1.5)
+        # what the previous history left must have drained before anything is counted against this server; if it has not (slow machine)
+        # the descriptor / thread counts of this history are not judged at all (reported as baseline-unstable)
+        self.unstable_baseline = not wait_until(stable, 10.0)
         self.base_fds = nfds()
         self.base_threads = threading.active_count()
         kw = {"logger": _quiet_logger(), "listener_timeout": 0.5}
@@ -523,7 +576,7 @@ class History:
             kw["hostname"] = "127.0.0.1"
             kw["port"] = 0
         if cfg["auth"]:
-            kw["authenticator"] = wrapping_authenticator if cfg.get("wrap") else toy_authenticator
+            kw["authenticator"] = {True: wrapping_authenticator, "first": detach_first_authenticator}.get(cfg.get("wrap"), toy_authenticator)
         # a nested request the server makes to a client waits for ever (the default would give up after 30 s: same thing, later)
         kw["protocol_config"] = {"sync_request_timeout": None}
         cls = {"threaded": S.ThreadedServer, "pool": S.ThreadPoolServer, "oneshot": S.OneShotServer}[cfg["kind"]]
@@ -740,6 +793,8 @@ class History:
         """no sockets, descriptors or table entries for departed clients (evaluated when the server's threads have settled)"""
         if self.tainted:
             return
+        time.sleep(0)
+        self.refill0()
         if self.workers_all_blocked():
             return          # no worker is free (C16's finding F7; c17_no_residue carries the same guard)
         kind = self.cfg["kind"]
@@ -793,7 +848,7 @@ class History:
 
             def fds_ok():
                 return nfds() - self.base_fds == want
-            if not self.eventually(fds_ok):
+            if not self.unstable_baseline and not self.eventually(fds_ok):
                 self.violation("descriptors:%s:leak-after-all-clients-left" % kind, idx, observed=nfds() - self.base_fds, expected=want,
                                what="descriptors remain open after every client has left")
             if srv._closed:
@@ -803,11 +858,11 @@ class History:
 
             def thr_ok():
                 return threading.active_count() - self.base_threads == tw
-            if not self.eventually(thr_ok, gc_retry=False):
+            if not self.unstable_baseline and not self.eventually(thr_ok, gc_retry=False):
                 self.violation("threads:%s:left-after-all-clients-left" % kind, idx, observed=threading.active_count() - self.base_threads, expected=tw,
                                what="worker threads remain after every client has left")
 
-    def check_close(self, idx, first, after_close=None, why=None):
+    def check_close(self, idx, first, after_close=None, why=None, subject=None, n_before=0):
         """close(): listener stopped, every connected client sees end-of-stream promptly, hooks ran once, nothing left; twice is harmless"""
         if self.tainted or self.job.get("probe") == "c16":
             if not self.tainted:
@@ -835,6 +890,18 @@ class History:
         if after_close is not None:
             after_close()
         self.rec.release.set()          # handlers the harness had parked may go on now
+        if why == "authlate" and not hung and subject is not None:
+            # evidence, not a timeout: either the client reads end-of-stream, or a connection is set up for it on the closed server
+            def settled():
+                return subject.sees_eof() or len(self.rec.connects) > n_before
+            wait_until(settled, self.B())
+            if len(self.rec.connects) > n_before and not subject.eof:
+                self.violation("close-misses-client-in-authentication:%s" % kind, idx,
+                               observed={"closed": bool(srv._closed), "connection set up after close()": True, "Server.clients": len(list(srv.clients))},
+                               expected="the client is disconnected", what="close() ran while the authenticator (which had replaced the accepted socket) was still "
+                               "waiting for the client; the client then finished authenticating and the closed server serves it")
+                self.tainted = True
+                return
         if why == "race" and not hung:
             # the accept that was held inside its window now finishes; what it registered on the closed server is the evidence
             wait_until(lambda: (not self.thread.is_alive()) or list(srv.clients) or (kind == "pool" and dict(srv.fd_to_conn)), self.B())
@@ -866,7 +933,8 @@ class History:
         if srv.listener.fileno() != -1 or srv.active or not srv._closed:
             self.violation("listener-open-after-close:%s" % kind, idx, observed=[srv.listener.fileno(), srv.active, srv._closed], expected=[-1, False, True],
                            what="the listener is not closed after close()")
-        else:
+        elif self.cfg["transport"] == "unix":
+            # (TCP: another process may have been given the freed port meanwhile -- the closed listener descriptor above is the evidence there)
             s = self._raw_connect(0.5)
             if s is not None:
                 # a unix/TCP connect must be refused once the listener is gone
@@ -877,6 +945,31 @@ class History:
                 self.violation("connect-succeeds-after-close:%s" % kind, idx, observed="connected", expected="refused", what="a new connection is accepted by the OS after close()")
         # every client that is still connected observes end-of-stream promptly
         left = []
+        in_handshake = []
+        if self.cfg.get("wrap") == "first" and self.cfg["auth"] and not hung:
+            # clients the (socket-replacing) authenticator is still waiting for: the server has no handle on their socket
+            frames = sys._current_frames()
+
+            def in_auth():
+                n = 0
+                for f in sys._current_frames().values():
+                    while f is not None:
+                        if f.f_code.co_name == "detach_first_authenticator":
+                            n += 1
+                            break
+                        f = f.f_back
+                return n
+            stalled = [c for c in self.live_clients() if c.connected and getattr(c, "auth", AUTH_OK) == AUTH_STALL and not c.accepted]
+            if stalled and all(in_auth() > 0 for _ in range(3) if time.sleep(0.1) is None):
+                in_handshake = [c for c in stalled if not c.sees_eof()]
+            if in_handshake:
+                self.violation("close-leaves-client-connected:%s:in-socket-replacing-handshake" % kind, idx,
+                               observed=[(c.cid, "connected, authenticator still waiting (thread stacks)") for c in in_handshake],
+                               expected="end-of-stream for every connected client",
+                               what="close() cannot reach a client that the socket-replacing authenticator is still handshaking with: Server.clients holds only the "
+                                    "detached original; the client stays connected to the closed server (pool: the accept thread stays inside the authenticator)")
+                self.tainted = True
+                return
         for c in self.live_clients():
             if not c.connected:
                 continue
@@ -930,13 +1023,13 @@ class History:
                            what="Server.clients / fd_to_conn are not empty after close()")
         def fds_ok():
             return nfds() - self.base_fds == sum(1 for c in self.clients.values() if c.sock_open())
-        if not self.eventually(fds_ok):
+        if not self.unstable_baseline and not self.eventually(fds_ok):
             self.violation("descriptors:%s:leak-after-close" % kind, idx, observed=nfds() - self.base_fds,
                            expected=sum(1 for c in self.clients.values() if c.sock_open()), what="the server still holds descriptors after close()")
 
         def thr_ok():
             return not self.thread.is_alive() and threading.active_count() - self.base_threads == 0
-        if not self.eventually(thr_ok, gc_retry=False):
+        if not self.unstable_baseline and not self.eventually(thr_ok, gc_retry=False):
             self.violation("threads:%s:alive-after-close" % kind, idx, observed=[self.thread.is_alive(), threading.active_count() - self.base_threads], expected=[False, 0],
                            what="server threads are still running after close()")
 
@@ -961,7 +1054,10 @@ class History:
     def do_connect(self, idx, cid, ckind, auth):
         cl = Client(cid, ckind)
         self.clients[cid] = cl
-        s = self._raw_connect(2.0)
+        if self.cfg["transport"] == "tcp" and self.srv.listener.fileno() == -1:
+            s = None        # the port is free for anybody now: whoever answers there is not this server
+        else:
+            s = self._raw_connect(2.0)
         if s is None:
             cl.gone = True       # refused: the client never existed for the server
             self.replies.append(["refused"])
@@ -1137,6 +1233,9 @@ class History:
         stalled = [c for c in self.clients.values() if c.connected and not c.gone and getattr(c, "auth", AUTH_OK) == AUTH_STALL]
         if self.cfg["auth"] and stalled and inside(self.thread, "C17.py", "toy_authenticator"):
             return "accept-loop-blocked-by-pending-authentication"
+        if 0 in dict(self.srv.fd_to_conn) and 0 in [x for x in list(self.srv._active_connection_queue.queue)] + [0] \
+                and not any(inside(t, os.path.join("utils", "server.py"), "_serve_requests") for t in self.srv.workers):
+            return "connection-on-descriptor-0-never-served"
         if self.workers_all_blocked() and all(inside(t, os.path.join("utils", "server.py"), "_serve_requests") for t in self.srv.workers):
             if all(inside(t, os.path.join("core", "stream.py"), "read") for t in self.srv.workers) and not (self.blockers() & self.stalling):
                 return "workers-blocked-in-unfinished-reads"
@@ -1206,6 +1305,284 @@ class History:
             except OSError:
                 got = "eof"
         self.replies.append(["kill", got])
+        self.settle(idx)
+
+    def refill0(self):
+        """descriptor 0 is kept occupied (helper processes read their jobs from another number) except while `connect0` hands it to the server"""
+        try:
+            os.fstat(0)
+        except OSError:
+            fd = os.open(os.devnull, os.O_RDONLY)
+            if fd != 0:
+                os.dup2(fd, 0)
+                os.close(fd)
+
+    def ping(self, cl, bound=None):
+        """-> 'answered' | 'eof' | 'silent'"""
+        bound = self.B() if bound is None else bound
+        try:
+            cl.seq += 1
+            cl.sock.sendall(R.frame(R.msg(R.MSG_REQUEST, cl.seq, (H["PING"], (R.LABEL_VALUE, (b"ping",)))), False))
+        except (OSError, AttributeError):
+            return "eof"
+        t0 = time.monotonic()
+        while time.monotonic() - t0 < bound:
+            m = cl.next_message(0)
+            if m == "eof":
+                return "eof"
+            if isinstance(m, tuple) and len(m) == 3 and m[0] in (R.MSG_REPLY, R.MSG_EXCEPTION) and m[1] == cl.seq:
+                return "answered"
+            if m == "timeout":
+                time.sleep(0.003)
+        return "silent"
+
+    def _good_connect(self, cid, want_fd=None):
+        cl = Client(cid, "raw")
+        self.clients[cid] = cl
+        cl.auth = AUTH_OK
+        fillers = []
+        if want_fd is not None and self.cfg["transport"] == "tcp":
+            # steer the kernel: make `want_fd` the lowest free descriptor number when the server's accept() runs
+            import socket
+            try:
+                s = socket.socket(socket.AF_INET, socket.SOCK_STREAM)
+                while True:
+                    fd = os.dup(s.fileno())
+                    if fd >= want_fd:
+                        os.close(fd)
+                        break
+                    fillers.append(fd)
+                s.settimeout(5)
+                s.connect(self.addr)
+                s.settimeout(None)
+                s.setsockopt(socket.IPPROTO_TCP, socket.TCP_NODELAY, 1)
+            except OSError:
+                s = None
+        else:
+            s = self._raw_connect(5.0)
+        if s is None:
+            cl.gone = True
+            return cl
+        cl.sock, cl.connected = s, True
+        self.addr_cid[norm_addr(s.getsockname())] = cid
+        if self.cfg["auth"]:
+            try:
+                s.sendall(b"OKAY")
+            except OSError:
+                pass
+
+        def up():
+            self.attribute()
+            return cl.accepted
+        wait_until(up, self.B())
+        for fd in fillers:
+            try:
+                os.close(fd)
+            except OSError:
+                pass
+        return cl
+
+    def do_hookhold(self, idx, c, d, mode="fin"):
+        """client c leaves; while ITS on_disconnect hook is still running (its descriptor number already free) client d connects"""
+        old = self.clients[c]
+        reached, go = threading.Event(), threading.Event()
+        self.rec.hook_hold = (reached, go)
+        if old.sock is not None:
+            try:
+                if mode == "rst":
+                    import socket
+                    old.sock.setsockopt(socket.SOL_SOCKET, socket.SO_LINGER, struct.pack("ii", 1, 0))
+                old.sock.close()
+            except OSError:
+                pass
+        old.sock, old.gone = None, True
+        in_hook = reached.wait(self.B() if old.key is not None else 1.0)
+        with self.rec.lock:
+            old_fd = self.rec.fd_of.get(old.key)
+        new = self._good_connect(d, want_fd=old_fd if in_hook else None)
+        with self.rec.lock:
+            fds = dict(self.rec.fd_of)
+        reused = old.key is not None and new.key is not None and fds.get(old.key) is not None and fds.get(old.key) == fds.get(new.key)
+        go.set()
+        self.rec.hook_hold = None
+        self.settle(idx)
+        served = None
+        if new.accepted and not self.closed_called and not self.workers_all_blocked():
+            time.sleep(0.05)
+            served = self.ping(new)
+            if served != "answered":
+                self.violation("good-client-dropped:%s%s" % (self.cfg["kind"], ":descriptor-number-reused" if reused else ""), idx,
+                               observed={"newcomer": served, "in the departing client's hook": bool(in_hook), "same descriptor number": bool(reused)},
+                               expected="the new client is served",
+                               what="a client that connected while a departed client's disconnect hook was still running is dropped when that hook returns "
+                                    "(the pool's tables are keyed by descriptor number, and the number had been given to the newcomer)")
+                self.tainted = True
+        self.replies.append(["hookhold", bool(in_hook), bool(reused), served])
+        self.check_residue(idx)
+
+    def do_knock(self, idx, cid):
+        """a client that connects and resets at once: the listener hands out a socket whose peer is already gone"""
+        import socket
+        cl = Client(cid, "raw")
+        self.clients[cid] = cl
+        cl.auth = AUTH_OK
+        s = self._raw_connect(5.0)
+        if s is not None:
+            try:
+                self.addr_cid[norm_addr(s.getsockname())] = cid
+                s.setsockopt(socket.SOL_SOCKET, socket.SO_LINGER, struct.pack("ii", 1, 0))
+                s.close()
+            except OSError:
+                pass
+        cl.gone = True
+        self.replies.append(["knock"])
+        time.sleep(0.05)
+        self.settle(idx)
+
+    def do_classref(self, idx, cid):
+        """the client shows the server a CLASS of its own (a remote reference whose id pack names a class): the server must ask THIS client
+        what the class looks like -- what another connection said about a class of that name is none of this connection's business"""
+        cl = self.clients[cid]
+        asked = None
+        if cl.sock is not None:
+            try:
+                cl.sock.sendall(R.frame(R.msg(R.MSG_REPLY, 7100 + idx, (R.LABEL_REMOTE_REF, ("verif.SharedName", 424242, 0))), False))
+                cl.seq += 1
+                ping_seq = cl.seq
+                cl.sock.sendall(R.frame(R.msg(R.MSG_REQUEST, ping_seq, (H["PING"], (R.LABEL_VALUE, (b"after",)))), False))
+                t0 = time.monotonic()
+                while time.monotonic() - t0 < self.B():
+                    m = cl.next_message(0)
+                    if m in ("eof", "garbled"):
+                        asked = m
+                        break
+                    if isinstance(m, tuple) and len(m) == 3:
+                        if m[0] == R.MSG_REQUEST and m[2][0] == H["INSPECT"]:
+                            asked = True
+                            cl.sock.sendall(R.frame(R.msg(R.MSG_REPLY, m[1], (R.LABEL_VALUE, (("method_of_client_%d" % cid, "doc"),))), False))
+                        elif m[0] in (R.MSG_REPLY, R.MSG_EXCEPTION) and m[1] == ping_seq:
+                            if asked is None:
+                                asked = False       # the frame BEFORE the ping was processed without a question to this client
+                            break
+                    elif m == "timeout":
+                        time.sleep(0.003)
+            except OSError:
+                asked = "eof"
+        if asked is False:
+            self.violation("class-description-from-another-connection:%s" % self.cfg["kind"], idx, observed="the server did not ask this client about the class it showed",
+                           expected="HANDLE_INSPECT sent to this client",
+                           what="a connection uses what ANOTHER connection said about a class of the same name and id (per-connection state shared between clients)")
+            self.tainted = True
+        self.replies.append(["classref", asked])
+        self.settle(idx)
+
+    def do_nospawn(self, idx, cid):
+        """a client connects while the process cannot start another thread (the per-user thread/process limit is reached by idle connections):
+        rpyc.lib.spawn -- threading.Thread.start -- fails once with RuntimeError("can't start new thread"), as it does at RLIMIT_NPROC"""
+        import rpyc.utils.server as SV
+        real = SV.spawn
+        fired = []
+
+        def failing(*a, **k):
+            if not fired:
+                fired.append(1)
+                raise RuntimeError("can't start new thread")
+            return real(*a, **k)
+        SV.spawn = failing
+        try:
+            cl = Client(cid, "raw")
+            self.clients[cid] = cl
+            cl.auth = AUTH_OK
+            s = self._raw_connect(5.0)
+            if s is not None:
+                cl.sock, cl.connected = s, True
+                self.addr_cid[norm_addr(s.getsockname())] = cid
+            wait_until(lambda: bool(fired) , self.B())
+            time.sleep(0.05)
+            wait_until(lambda: not self.thread.is_alive(), 0.5)
+        finally:
+            SV.spawn = real
+        if fired and (not self.thread.is_alive() or not self.srv.active) and not self.closed_called:
+            self.violation("accept-loop-ended-on-spawn-failure:%s" % self.cfg["kind"], idx,
+                           observed={"accept thread alive": self.thread.is_alive(), "active": bool(self.srv.active), "closed": bool(self.srv._closed)},
+                           expected="the server gives that one client up and keeps running",
+                           what="starting the worker thread for a new client failed (thread limit reached): the exception leaves accept(), start() closes the server "
+                                "and every client is thrown out")
+            self.tainted = True
+        self.replies.append(["nospawn", bool(fired)])
+        self.settle(idx, cid)
+
+    def do_connect0(self, idx, cid):
+        """a well-behaved client whose server-side socket gets descriptor number 0"""
+        import socket
+        cl = Client(cid, "raw")
+        self.clients[cid] = cl
+        cl.auth = AUTH_OK
+        try:
+            if self.cfg["transport"] == "unix":
+                s = socket.socket(socket.AF_UNIX, socket.SOCK_STREAM)
+                self.nsock += 1
+                s.bind(b"\0verif-c17-%d-%d-%d" % (os.getpid(), id(self) & 0xffffff, self.nsock))
+            else:
+                s = socket.socket(socket.AF_INET, socket.SOCK_STREAM)
+            if self.cfg["transport"] == "tcp":
+                # (a unix listener has no timeout: its blocking accept() reserved a descriptor number when it was entered -- nothing to hand over)
+                os.close(0)                  # the lowest free number is 0 now: accept() will hand it to the server
+            s.settimeout(5)
+            s.connect(self.addr)
+            s.settimeout(None)
+            cl.sock, cl.connected = s, True
+            self.addr_cid[norm_addr(s.getsockname())] = cid
+            if self.cfg["auth"]:
+                s.sendall(b"OKAY")
+        except OSError:
+            cl.gone = True
+
+        def up():
+            self.attribute()
+            return cl.accepted
+        wait_until(up, self.B())
+        with self.rec.lock:
+            fd = self.rec.fd_of.get(cl.key)
+        self.refill0()
+        if fd != 0 or not self.thread.is_alive():
+            # the descriptor juggling did not come out as intended (somebody else took number 0, or the accept loop tripped over it):
+            # nothing in this history is judged from here on -- this op is about a client ON descriptor 0, nothing else
+            self.tainted = True
+            self.stats["connect0_unreliable"] = self.stats.get("connect0_unreliable", 0) + 1
+            self.replies.append(["connect0-unreliable", fd])
+            self.obs.append(None)
+            return
+        self.replies.append(["connected", bool(cl.accepted), None, fd])
+        self.settle(idx, cid)
+
+    def do_authlate(self, idx, cid):
+        """a client is still in the authenticator's hands (which has replaced the accepted socket) when close() runs; it finishes authenticating afterwards"""
+        cl = Client(cid, "raw")
+        self.clients[cid] = cl
+        cl.auth = AUTH_STALL
+        s = self._raw_connect(5.0)
+        if s is None:
+            cl.gone = True
+            self.replies.append(["refused"])
+            self.settle(idx)
+            return
+        cl.sock, cl.connected = s, True
+        self.addr_cid[norm_addr(s.getsockname())] = cid
+        # the accept loop has handed it to its worker / the authenticator
+        wait_until(lambda: len(self.srv.clients.log) > 0 and any(n == norm_addr(s.getsockname()) for _, n in list(self.srv.clients.log)), self.B())
+        time.sleep(0.05)
+        n0 = len(self.rec.connects)
+
+        def finish_auth():
+            try:
+                s.sendall(b"OKAY")
+            except OSError:
+                pass
+        first = not self.closed_called
+        self.closed_called = True
+        self.check_close(idx, first, after_close=finish_auth, why="authlate", subject=cl, n_before=n0)
+        self.replies.append(["authlate"])
         self.settle(idx)
 
     def do_twin(self, idx, a, b):
@@ -1496,6 +1873,18 @@ class History:
                     self.do_stall(idx, it[1])
                 elif op == "twin":
                     self.do_twin(idx, it[1], it[2])
+                elif op == "nospawn":
+                    self.do_nospawn(idx, it[1])
+                elif op == "knock":
+                    self.do_knock(idx, it[1])
+                elif op == "classref":
+                    self.do_classref(idx, it[1])
+                elif op == "hookhold":
+                    self.do_hookhold(idx, it[1], it[2], it[3] if len(it) > 3 else "fin")
+                elif op == "connect0":
+                    self.do_connect0(idx, it[1])
+                elif op == "authlate":
+                    self.do_authlate(idx, it[1])
                 elif op == "park":
                     self.do_park(idx, it[1])
                 elif op == "emfile":
@@ -1506,13 +1895,14 @@ class History:
                     self.do_leave(idx, it[1], it[2])
                 elif op == "srvclose":
                     self.do_srvclose(idx)
+                self.refill0()
                 self.extra_checks(idx, it)
                 if self.failed_good_client(idx) or (self.tainted and self.job.get("probe") == "c16"):
                     break       # the rest of the history would only wait for the same missing answers
         finally:
             self.stop()
         return {"id": self.job.get("id"), "obs": self.obs, "replies": self.replies, "oracle": self.oracle, "mismatch": self.mismatch,
-                "stats": self.stats, "thread_errors": [list(x) for x in THREAD_ERRORS]}
+                "stats": self.stats, "thread_errors": [list(x) for x in THREAD_ERRORS], "unstable_baseline": bool(getattr(self, "unstable_baseline", False))}
 
     def failed_good_client(self, idx):
         wb = (self.job.get("wb") or [False] * len(self.items))[idx]
@@ -1537,7 +1927,32 @@ class History:
 PROBES = {}
 
 
+def close_before_start(job):
+    """close() on a server that was created but never started, twice"""
+    import tempfile, shutil
+    from rpyc.utils import server as SV
+    import rpyc
+    kind = job["cfg"]["kind"]
+    cls = {"threaded": SV.ThreadedServer, "pool": SV.ThreadPoolServer, "oneshot": SV.OneShotServer}[kind]
+    oracle = []
+    srv = cls(rpyc.Service, hostname="127.0.0.1", port=0, logger=_quiet_logger())
+    for n in (1, 2):
+        try:
+            srv.close()
+        except Exception as e:
+            oracle.append({"sig": "close-before-start-raises:%s:%s" % (kind, type(e).__name__), "item": 0, "observed": repr(e), "expected": "no exception",
+                           "what": "close() on a server that was never started raises (%s call)" % ("first" if n == 1 else "second")})
+            break
+    try:
+        srv.listener.close()
+    except Exception:
+        pass
+    return {"id": job.get("id"), "obs": [], "replies": [], "oracle": oracle, "mismatch": [], "stats": {}, "thread_errors": []}
+
+
 def run_job(job):
+    if job.get("special") == "close-before-start":
+        return close_before_start(job)
     t0 = time.monotonic()
     res = History(job).run()
     res["wall"] = round(time.monotonic() - t0, 2)
@@ -1553,7 +1968,11 @@ def worker_main():
         import harness.C16  # noqa: F401  (registers its probes)
     except Exception:
         pass
-    for line in sys.stdin:
+    jobs_in = os.fdopen(os.dup(0), "r")     # descriptor 0 itself is handed to the server by `connect0`; it is otherwise kept on /dev/null
+    nul = os.open(os.devnull, os.O_RDONLY)
+    os.dup2(nul, 0)
+    os.close(nul)
+    for line in jobs_in:
         line = line.strip()
         if not line:
             continue
@@ -1936,6 +2355,17 @@ class Gen:
         if self.busy == c:
             self.busy = None
 
+    def authlate(self):
+        c = self.next_cid
+        self.next_cid += 1
+        self.items.append(["authlate", c])
+        self.ever.append(c)
+        self.alive[c] = {"ckind": "raw", "auth": AUTH_STALL, "served": False, "blocked": False}
+        self.tables[c] = []
+        self.closed = True
+        for a in self.alive.values():
+            a["served"] = False
+
     def race(self):
         """close() inside the window of an accept"""
         c = self.next_cid
@@ -1959,7 +2389,7 @@ def gen_cfg(r, kinds=("threaded", "pool", "oneshot")):
     kind = r.choice(kinds)
     auth = r.random() < 0.3
     return {"kind": kind, "transport": r.choice(["tcp", "tcp", "unix"]), "auth": auth, "cls": r.random() < 0.75,
-            "nw": r.choice([1, 2, 2, 3]), "batch": r.choice([1, 2, 3, 10]), "wrap": auth and r.random() < 0.5}
+            "nw": r.choice([1, 2, 2, 3]), "batch": r.choice([1, 2, 3, 10]), "wrap": (r.choice([True, "first"]) if auth and r.random() < 0.5 else False)}
 
 
 def gen_history(r, quick=True, kinds=("threaded", "pool", "oneshot"), hostile=0.08):
@@ -1973,6 +2403,9 @@ def gen_history(r, quick=True, kinds=("threaded", "pool", "oneshot"), hostile=0.
         if close_at == step and not g.closed:
             if r.random() < 0.2 and g.busy is None and len(g.ever) < 6 and not (cfg["kind"] == "oneshot" and g.ever):
                 g.race()
+            elif cfg["auth"] and cfg.get("wrap") and cfg["kind"] != "pool" and r.random() < 0.4 and g.busy is None and len(g.ever) < 6 \
+                    and not (cfg["kind"] == "oneshot" and g.ever):
+                g.authlate()
             else:
                 g.srvclose()
             if r.random() < 0.6:
@@ -2034,6 +2467,9 @@ def witnesses():
             out.append((dict(base), [["connect", 1, "raw", 0], ["send", 1, struct.pack(">IB", 100, 0).hex()], ["leave", 1, "rst"], ["srvclose"]]))
     out.append(({"kind": "oneshot", "transport": "tcp", "auth": False, "cls": True, "nw": 1, "batch": 1},
                 [["connect", 1, "raw", 0], ["connect", 2, "raw", 0], ["req", 1, QROOT, None, 0], ["leave", 1, "fin"], ["connect", 3, "raw", 0], ["srvclose"]]))
+    # close() on a server that was created and never started
+    for kind in ("threaded", "pool", "oneshot"):
+        out.append(({"kind": kind, "transport": "tcp", "auth": False, "cls": True, "nw": 2, "batch": 10, "special": "close-before-start"}, []))
     # close() with several clients connected, one or two of which have vanished (reset) while their worker was busy in a handler:
     # shutting THEIR sockets down fails; everybody else must still be disconnected
     for n, gone in ((3, [2]), (4, [1]), (4, [2, 3]), (5, [3]), (5, [1, 4]), (6, [2]), (6, [5]), (3, [1])):
@@ -2051,6 +2487,11 @@ def witnesses():
             out.append((dict(base), [["connect", 1, "raw", 0], ["req", 1, QROOT, None, 0], ["srvclose"], ["srvclose"]]))
             out.append((dict(base), [["connect", 1, "rpyc", 0], ["call", 1, 3], ["connect", 2, "raw", 0], ["leave", 2, "fin"], ["srvclose"]]))
             out.append((dict(base), [["connect", 1, "raw", 0], ["req", 1, QROOT, None, 0], ["leave", 1, "close"], ["connect", 2, "raw", AUTH_FAIL], ["srvclose"]]))
+            # close() while the (socket-replacing) authenticator still waits for the client, who finishes authenticating afterwards
+            for w in (True, "first"):
+                out.append((dict(base, wrap=w), [["authlate", 1], ["srvclose"]]))
+                if kind != "oneshot":
+                    out.append((dict(base, wrap=w), [["connect", 1, "raw", 0], ["req", 1, QROOT, None, 0], ["authlate", 2], ["leave", 1, "fin"]]))
             # close() inside the window of accept()
             base = {"kind": kind, "transport": transport, "auth": False, "cls": True, "nw": 2, "batch": 10}
             out.append((dict(base), [["race", 1], ["srvclose"]]))
@@ -2088,7 +2529,7 @@ def key_of(cfg, items):
 def nontrivial(cfg, items):
     ops = [it[0] for it in items]
     n_conn = ops.count("connect")
-    if "race" in ops:
+    if "race" in ops or "authlate" in ops:
         return True
     if "srvclose" in ops:
         i = ops.index("srvclose")
@@ -2121,11 +2562,11 @@ def well_behaved(cfg, items, j):
     """is the client of item j a well-behaved client of a running server at that point (by the history alone)?
     authenticated, speaks only well-formed requests, the server was not closed, and (one-shot) it is the first client"""
     it = items[j]
-    if it[0] not in ("connect", "req", "call", "emfile"):
+    if it[0] not in ("connect", "req", "call", "emfile", "connect0"):
         return False
     c = it[1]
     first = None
-    seen_connect = it[0] in ("connect", "emfile")
+    seen_connect = it[0] in ("connect", "emfile", "connect0")
     for k in range(j):
         o = items[k]
         if o[0] == "srvclose":
@@ -2138,10 +2579,14 @@ def well_behaved(cfg, items, j):
             seen_connect = True
             if cfg["auth"] and o[3] != AUTH_OK:
                 return False
-        if o[0] in ("send", "kill", "stall", "park") and o[1] == c:
+        if o[0] in ("send", "kill", "stall", "park", "classref") and o[1] == c:
             return False
         if o[0] == "twin" and c in (o[1], o[2]):
             seen_connect = True
+        if (o[0] == "hookhold" and o[2] == c) or (o[0] == "connect0" and o[1] == c):
+            seen_connect = True
+        if o[0] == "hookhold" and o[1] == c:
+            return False
         if o[0] == "twin" and first is None:
             first = o[1]
         if o[0] == "leave" and o[1] == c:
@@ -2159,7 +2604,7 @@ def well_behaved(cfg, items, j):
 def clean_history(items):
     """nothing in it explains an exception in a server thread: only well-formed requests, graceful leaves, no close()"""
     for it in items:
-        if it[0] in ("send", "kill", "stall", "park", "emfile", "race", "srvclose", "hostile"):
+        if it[0] in ("send", "kill", "stall", "park", "emfile", "race", "srvclose", "hostile", "authlate", "nospawn", "knock", "classref"):
             return False
         if it[0] == "leave" and it[2] == "rst":
             return False
@@ -2184,7 +2629,9 @@ def evaluate(ctx, label, batch, model, facts, farm, probe=None, nontrivial_fn=No
         job = {"id": i, "cfg": cfg, "items": items, "wb": [probe == "c16" and well_behaved(cfg, items, j) for j in range(len(items))]}
         if probe:
             job["probe"] = probe
-        if cfg["kind"] != "forking":
+        if cfg.get("special"):
+            job["special"] = cfg["special"]
+        if cfg["kind"] != "forking" and not cfg.get("special"):
             case, snap, pre = model_case(cfg, facts, items)
             cases.append(case)
             snaps.append(snap)
@@ -2209,6 +2656,15 @@ def evaluate(ctx, label, batch, model, facts, farm, probe=None, nontrivial_fn=No
                 q, st = mouts[i][s]
                 if not q:
                     fuel_out.append((cfg_of[i], j))
+                itj = job["items"][j]
+                if itj[0] in ("authlate", "nospawn", "classref", "knock"):
+                    starved = True       # (knock: whether accept() or the reset comes first is the kernel's business)
+                if itj[0] == "connect0" and not facts[9]:
+                    starved = True       # the client on descriptor 0 is never served on this tree: the model serves every queued connection
+                if itj[0] == "hookhold" and not facts[7]:
+                    starved = True       # the model's table keys are never reused
+                if itj[0] == "connect" and itj[3] == AUTH_STALL and cfg_of[i].get("wrap") == "first" and cfg_of[i]["auth"]:
+                    starved = True       # a client inside a socket-replacing handshake is out of close()'s reach: the model has it in Server.clients       # the model has no "authentication finishes later" event
                 if job["items"][j][0] == "park":
                     starved = True       # a worker busy inside a handler does not see its client leave until the handler returns
                 if job["items"][j][0] == "emfile" and not facts[5]:
@@ -2284,11 +2740,13 @@ def evaluate(ctx, label, batch, model, facts, farm, probe=None, nontrivial_fn=No
                     ctx.violation("good-client-wrong-answer:%s" % cfg["kind"], case, observed=rep["got"], expected=rep["ref"],
                                   what="a well-behaved client is not answered as its own endpoint would (event %d)" % j)
                 break
-        if cfg["kind"] == "forking":
+        if cfg["kind"] == "forking" or cfg.get("special"):
             continue
         if mouts[i] is None:
             continue
         ctx.model_traces += 1
+        if res.get("unstable_baseline"):
+            ctx.count("baseline-unstable:descriptor-and-thread-counts-not-judged")
         ctx.count("events:total", len(items))
         ctx.count("events:compared-with-model", min(compared[i], len(res.get("obs", []))))
         for nm, ty in res.get("thread_errors", []):
